@@ -93,6 +93,7 @@ let functions : (string * (val0 -> val0)) list = [
   ("ckpt", ckpt_run);
   ("sig", sig_run);
   ("claim", claim_run);
+  ("reg", reg_run);
 ]
 
 (* monitors: (property, suite) -> case -> implementation output -> list of violations *)
@@ -109,6 +110,8 @@ let monitors : ((string * string) * (val0 -> val0 -> val0)) list = [
   (("C07", "ckpt"), mon_C07_ckpt);
   (("C07", "sig"), mon_C07_sig);
   (("C14", "claim"), mon_C14);
+  (("C16", "reg"), mon_C16);
+  (("C17", "reg"), mon_C17);
 ]
 
 let first_diff (a : val0) (b : val0) : int =
